@@ -1,4 +1,27 @@
-(* C10, first sentence: "... THE MEDIUM MOUNTS".  Part 2 of 2. *)
+(* C10, first sentence: "If the device stops accepting writes after any block write of any
+   operation, THE MEDIUM MOUNTS, and no live directory entry or chain refers to ...".
+   PrCrashAll.C10_history gives the crash invariant for every crashed medium,
+   PrCrashDef6.crash_region_history that block 0 and the boot sector are never written,
+   PrGlobalMount the record a later mount computes (relabel).  Here the remaining gap: a fresh
+   manager's OpenVol SUCCEEDS on every crashed medium.  (Family of part 1: PrCrashMount.v;
+   examples: PrCrashMount3.v.)
+   1  W_crash: a run whose logged writes to block I are signed leaves a signed block at I on
+      every crashed medium
+   2  fs_inv_J: the invariant J of PrCrashMount at a state of the global invariant (FAT32)
+   3  sig_crash_run (any state with J, any calls but a top-level OpenVol, ANY outcome, device
+      faults included) and info_sig_crash_history (hypotheses of PrCrashAll.C10_history): the
+      information sector is signed between the calls and on every crashed medium of every call
+   4  the mount path reads three blocks: parse_volume_sig / mount_sig3 / mount_info_sig (the
+      signatures hold after a successful mount: the code checked them), parse_volume_transfer,
+      mount_depends (same block 0, same boot sector, signed information sector => OpenVol
+      succeeds again with the same record up to handle, free count, hint), mount_depends_iff
+   5  C10_crashed_medium_mounts, C10_medium_between_calls_mounts
+   What is used about the mounting manager: nothing open, lock free, no armed device fault
+   (FsMgr.init_state with an empty fault list), room for one volume (0 < mv': with mv' = 0 OpenVol
+   answers TooManyOpenVolumes on any medium, PrCrashMount3.no_room_refused).
+   Not needed and not proved: that every block of a crashed medium has 512 bytes (the mount reads
+   three blocks with get8, total on lists; Sg carries the length of the information sector).
+   Build order: after PrCrashMount, PrGlobalMount, PrCrashAll, PrCrashDef6. *)
 From Coq Require Import NArith ZArith List Bool Lia Arith ZifyClasses ZifyInst Zify FMapPositive Permutation.
 From SdFs Require Import FsTypes FsBase FsFat FsMgr FsLemmas PrBase PrFat PrAlloc PrDir PrSeek PrAllocEffect
   PrRw PrWrite PrFileSeq PrMulti PrEntry PrChain PrCount PrWf PrOpenClose.
@@ -302,13 +325,11 @@ Proof.
 Qed.
 
 (* (a) the signatures hold after a successful mount: the mount code checked them *)
-Theorem mount_info_sig idx s0 vid s1 v : PrGlobalMount.fresh_mgr s0 -> blocks_wf (s_disk s0) ->
-  step (OpenVol idx) s0 = (Ok (RHandle vid), s1) -> s_vols s1 = [v] -> info_sig (s_disk s1) v.
+Theorem mount_sig3 idx s0 vid s1 v : PrGlobalMount.fresh_mgr s0 ->
+  step (OpenVol idx) s0 = (Ok (RHandle vid), s1) -> s_vols s1 = [v] -> v_fat32 v = true ->
+  sig3 (disk_get (s_disk s0) (v_info v)).
 Proof.
-  intros F Hwf E Ev.
-  destruct (PrGlobalMount.mount_run idx s0 vid s1 F E) as (v0 & Ev0 & _ & _ & _ & Ed & _).
-  rewrite Ev in Ev0. injection Ev0 as <-. rewrite Ed.
-  unfold info_sig. destruct (v_fat32 v) eqn:E32; [|exact Logic.I]. split; [apply Hwf|].
+  intros F E Ev E32.
   destruct F as (Va & _ & _ & La & Fa & Ca).
   cbn [step] in E. apply PrHandles.lift_ok_inv in E. destruct E as (id & E & Er). injection Er as ->.
   unfold open_raw_volume, locked in E.
@@ -333,6 +354,100 @@ Proof.
   rewrite <- Ev. exact S3.
 Qed.
 
+Theorem mount_info_sig idx s0 vid s1 v : PrGlobalMount.fresh_mgr s0 -> blocks_wf (s_disk s0) ->
+  step (OpenVol idx) s0 = (Ok (RHandle vid), s1) -> s_vols s1 = [v] -> info_sig (s_disk s1) v.
+Proof.
+  intros F Hwf E Ev.
+  destruct (PrGlobalMount.mount_run idx s0 vid s1 F E) as (v0 & Ev0 & _ & _ & _ & Ed & _).
+  rewrite Ed. unfold info_sig. destruct (v_fat32 v) eqn:E32; [|exact Logic.I]. split; [apply Hwf|].
+  exact (mount_sig3 idx s0 vid s1 v F E Ev E32).
+Qed.
+
+(* a manager without room for a volume refuses *)
+Lemma mount_needs_room idx s vid s' : PrGlobalMount.fresh_mgr s ->
+  step (OpenVol idx) s = (Ok (RHandle vid), s') -> 0 < s_maxv s.
+Proof.
+  intros (Va & _ & _ & La & _) E.
+  cbn [step] in E. apply PrHandles.lift_ok_inv in E. destruct E as (id & E & _).
+  unfold open_raw_volume, locked in E.
+  unfold bind at 1 in E. unfold get at 1 in E. rewrite La in E.
+  unfold bind at 1 in E. unfold get at 1 in E. rewrite Va in E.
+  unfold is_full in E. cbn [length] in E.
+  destruct (N.leb_spec (s_maxv s) (N.of_nat 0)) as [H|H]; [exfalso; exact (PrMountLayout.fail_inv _ _ _ _ E)|exact H].
+Qed.
+
+(* the information sector a mount of partition entry idx of d would read *)
+Definition info_block (d : disk) (idx : N) : N :=
+  let lba := PrMountLayout.mbr_start (disk_get d 0) idx in lba + le16 (disk_get d lba) 48.
+
+Lemma mount_info_block idx s0 vid s1 v : PrGlobalMount.fresh_mgr s0 ->
+  step (OpenVol idx) s0 = (Ok (RHandle vid), s1) -> s_vols s1 = [v] ->
+  v_lba v = PrMountLayout.mbr_start (disk_get (s_disk s0) 0) idx /\
+  (v_fat32 v = true -> v_info v = info_block (s_disk s0) idx).
+Proof.
+  intros F E Ev.
+  destruct (PrGlobalMount.mount_run idx s0 vid s1 F E) as
+    (v0 & Ev0 & _ & _ & _ & _ & _ & _ & _ & _ & _ & Elba & _ & MF).
+  rewrite Ev in Ev0. injection Ev0 as <-. split; [exact Elba|]. intros E32.
+  destruct (PrMountLayout.mf_32 _ _ _ _ _ _ MF E32) as (_ & _ & Ei & _).
+  unfold info_block. cbv zeta. rewrite <- Elba. exact Ei.
+Qed.
+
+Lemma mount_depends_dir idx d d' off mv md mf vid s1 :
+  disk_get d' 0 = disk_get d 0 ->
+  disk_get d' (PrMountLayout.mbr_start (disk_get d 0) idx) = disk_get d (PrMountLayout.mbr_start (disk_get d 0) idx) ->
+  (sig3 (disk_get d (info_block d idx)) -> sig3 (disk_get d' (info_block d idx))) ->
+  step (OpenVol idx) (init_state d off mv md mf []) = (Ok (RHandle vid), s1) ->
+  exists v s1' v', s_vols s1 = [v] /\
+    step (OpenVol idx) (init_state d' off mv md mf []) = (Ok (RHandle vid), s1') /\ s_vols s1' = [v'] /\ geo_eq v v'.
+Proof.
+  intros H0 Hl Hs E. pose proof (PrGlobalMount.fresh_init d off mv md mf) as F.
+  destruct (PrGlobalMount.mount_run idx _ vid s1 F E) as (v & Ev & <- & Evid & _).
+  destruct (mount_info_block idx _ _ s1 v F E Ev) as (Elba & Einfo). cbn [s_disk init_state] in Elba, Einfo.
+  pose proof (mount_needs_room idx _ _ s1 F E) as Hroom. cbn [s_maxv init_state] in Hroom.
+  destruct (mount_depends idx _ _ s1 v (init_state d' off mv md mf []) F (PrGlobalMount.fresh_init d' off mv md mf)
+              Hroom E Ev) as (s1' & v' & E' & Ev' & G & _).
+  - exact H0.
+  - cbn [s_disk init_state]. rewrite Elba. exact Hl.
+  - cbn [s_disk init_state]. intros E32. rewrite (Einfo E32). apply Hs. rewrite <- (Einfo E32).
+    exact (mount_sig3 idx _ _ s1 v F E Ev E32).
+  - cbn [s_next_id init_state] in E', G, Evid. exists v, s1', v'. split; [exact Ev|].
+    split; [rewrite Evid; exact E'|]. split; [exact Ev'|].
+    replace (set_v_id v off) with v in G; [exact G|]. rewrite <- Evid. destruct v; reflexivity.
+Qed.
+
+(* the "iff" form: two media that agree on block 0, on the boot sector of partition entry idx,
+   and on WHETHER the block at the information-sector position carries the three signatures:
+   a fresh manager (same limits, same handle offset) mounts the one iff it mounts the other, and
+   the two records differ in free count and hint only *)
+Theorem mount_depends_iff idx d d' off mv md mf vid :
+  disk_get d' 0 = disk_get d 0 ->
+  disk_get d' (PrMountLayout.mbr_start (disk_get d 0) idx) = disk_get d (PrMountLayout.mbr_start (disk_get d 0) idx) ->
+  (sig3 (disk_get d' (info_block d idx)) <-> sig3 (disk_get d (info_block d idx))) ->
+  ((exists s1, step (OpenVol idx) (init_state d off mv md mf []) = (Ok (RHandle vid), s1)) <->
+   (exists s1', step (OpenVol idx) (init_state d' off mv md mf []) = (Ok (RHandle vid), s1'))) /\
+  forall s1 s1' v v', step (OpenVol idx) (init_state d off mv md mf []) = (Ok (RHandle vid), s1) ->
+    step (OpenVol idx) (init_state d' off mv md mf []) = (Ok (RHandle vid), s1') ->
+    s_vols s1 = [v] -> s_vols s1' = [v'] -> geo_eq v v'.
+Proof.
+  intros H0 Hl Hs.
+  assert (Eib : info_block d' idx = info_block d idx).
+  { unfold info_block. cbv zeta. rewrite H0, Hl. reflexivity. }
+  split; [split|].
+  - intros (s1 & E). destruct (mount_depends_dir idx d d' off mv md mf vid s1 H0 Hl (proj2 Hs) E) as (_ & s1' & _ & _ & E' & _).
+    exists s1'. exact E'.
+  - intros (s1' & E').
+    destruct (mount_depends_dir idx d' d off mv md mf vid s1') as (_ & s1 & _ & _ & E & _); [| | |exact E'|].
+    + symmetry. exact H0.
+    + rewrite H0. symmetry. exact Hl.
+    + rewrite Eib. exact (proj1 Hs).
+    + exists s1. exact E.
+  - intros s1 s1' v v' E E' Ev Ev'.
+    destruct (mount_depends_dir idx d d' off mv md mf vid s1 H0 Hl (proj2 Hs) E) as (w & t & w' & Ew & Et & Ew' & G).
+    rewrite E' in Et. injection Et as <-. rewrite Ev in Ew. injection Ew as <-. rewrite Ev' in Ew'. injection Ew' as <-.
+    exact G.
+Qed.
+
 (* ================================================================== 5. C10, first sentence *)
 (* A medium accepted by the decider is mounted by a fresh manager; any history of API calls
    follows; the device stops accepting writes after any block write of any call (d' ranges over
@@ -343,6 +458,45 @@ Qed.
    medium with unique names and correct dot entries, every referenced chain in range, acyclic,
    terminated, never through free / bad / reserved entries, disjoint from every other; residue:
    lost chains and a size not yet updated). *)
+Theorem C10_crashed_medium_mounts_gen depth fsz idx age s0 vid s1 v ops1 o ops2 :
+  PrGlobalMount.mounted_ok depth fsz idx age s0 vid s1 v ->
+  age + 1 + N.of_nat (length (ops1 ++ o :: ops2)) < U32 - 1 -> Forall op_known_ok (ops1 ++ o :: ops2) ->
+  let sa := snd (run_ops (OpenVol idx :: ops1) s0) in
+  forall d', PrCrashDef.crash_disks sa (snd (step o sa)) d' ->
+  forall sb, PrGlobalMount.fresh_mgr sb -> s_disk sb = d' -> 0 < s_maxv sb ->
+  exists sb' v', step (OpenVol idx) sb = (Ok (RHandle (s_next_id sb)), sb') /\
+    s_vols sb' = [v'] /\ s_disk sb' = d' /\ PrGlobalMount.relabel v v' /\
+    info_sig d' v' /\ PrCrashDef.crash_inv fsz v' d'.
+Proof.
+  intros M Hage1 Hops sa d' Hd sb Fb Edb Hmax.
+  destruct (PrGlobalMount.mounted_start _ _ _ _ _ _ _ _ M) as (Hinv & Hh).
+  pose proof (PrGlobalMount.mo_open _ _ _ _ _ _ _ _ M) as E.
+  pose proof (PrGlobalMount.mo_vol _ _ _ _ _ _ _ _ M) as Ev.
+  pose proof (PrGlobalMount.mo_fresh _ _ _ _ _ _ _ _ M) as F0.
+  assert (Esa : sa = snd (run_ops ops1 s1)).
+  { unfold sa. rewrite (PrGlobalMount.run_ops_mount idx ops1 _ vid s1 E). reflexivity. }
+  rewrite Esa in Hd.
+  destruct (PrGlobalMount.mount_run idx _ vid s1 F0 E) as (v0 & Ev0 & _ & _ & _ & Ed & _).
+  destruct (PrCrashAll.C10_history fsz vid ops1 o ops2 s1 (age + 1) v Hinv Hh Hage1 Hops Ev) as (_ & Hc).
+  destruct (PrCrashDef6.crash_region_history fsz vid ops1 o ops2 s1 (age + 1) v Hinv Hh Hage1 Hops Ev d' Hd)
+    as (_ & B0 & Bl).
+  assert (Hs1 : info_sig (s_disk s1) v).
+  { apply (mount_info_sig idx _ vid s1 v F0); [exact (PrGlobalMount.mo_wf _ _ _ _ _ _ _ _ M)|exact E|exact Ev]. }
+  destruct (info_sig_crash_history fsz vid ops1 o ops2 s1 (age + 1) v Hinv Hh Hage1 Hops Ev Hs1) as (_ & Hsig).
+  specialize (Hsig d' Hd). specialize (Hc d' Hd).
+  destruct (mount_depends idx _ vid s1 v sb F0 Fb Hmax E Ev) as (s' & v' & Es & Evs & G & R & Eds).
+  - rewrite Edb, B0, Ed. reflexivity.
+  - rewrite Edb, Bl, Ed. reflexivity.
+  - rewrite Edb. intros E32. unfold info_sig in Hsig. rewrite E32 in Hsig. exact (proj2 Hsig).
+  - exists s', v'. split; [exact Es|]. split; [exact Evs|].
+    split; [rewrite Eds; exact Edb|]. split; [exact R|]. split.
+    + destruct G as (a & c & ->). exact Hsig.
+    + exact (PrGlobalMount.crash_inv_relabel fsz v v' d' R Hc).
+Qed.
+
+(* ... as asked: from FsMgr.init_state on a medium accepted by the decider; the mounting manager
+   is FsMgr.init_state on the crashed medium, with any handle offset and any limits with room
+   for a volume *)
 Theorem C10_crashed_medium_mounts depth fsz d off mv md mf idx vid s1 v ops1 o ops2 :
   blocks_wf d -> off < U32 ->
   step (OpenVol idx) (init_state d off mv md mf []) = (Ok (RHandle vid), s1) -> s_vols s1 = [v] ->
@@ -357,30 +511,9 @@ Theorem C10_crashed_medium_mounts depth fsz d off mv md mf idx vid s1 v ops1 o o
 Proof.
   intros Hwf Hoff E Ev Hb Hage Hops sa d' Hd off' mv' md' mf' Hmax.
   pose proof (PrGlobalMount.mounted_ok_init depth fsz d off mv md mf idx vid s1 v Hwf Hoff E Ev Hb) as M.
-  destruct (PrGlobalMount.mounted_start _ _ _ _ _ _ _ _ M) as (Hinv & Hh).
   assert (Hage1 : 0 + 1 + N.of_nat (length (ops1 ++ o :: ops2)) < U32 - 1) by lia.
-  assert (Esa : sa = snd (run_ops ops1 s1)).
-  { unfold sa. rewrite (PrGlobalMount.run_ops_mount idx ops1 _ vid s1 E). reflexivity. }
-  rewrite Esa in Hd.
-  pose proof (PrGlobalMount.fresh_init d off mv md mf) as F0.
-  destruct (PrGlobalMount.mount_run idx _ vid s1 F0 E) as (v0 & Ev0 & _ & _ & _ & Ed & _).
-  cbn [s_disk init_state] in Ed.
-  destruct (PrCrashAll.C10_history fsz vid ops1 o ops2 s1 (0 + 1) v Hinv Hh Hage1 Hops Ev) as (_ & Hc).
-  destruct (PrCrashDef6.crash_region_history fsz vid ops1 o ops2 s1 (0 + 1) v Hinv Hh Hage1 Hops Ev d' Hd)
-    as (_ & B0 & Bl).
-  assert (Hs1 : info_sig (s_disk s1) v).
-  { apply (mount_info_sig idx _ vid s1 v F0); [exact Hwf|exact E|exact Ev]. }
-  destruct (info_sig_crash_history fsz vid ops1 o ops2 s1 (0 + 1) v Hinv Hh Hage1 Hops Ev Hs1) as (_ & Hsig).
-  specialize (Hsig d' Hd). specialize (Hc d' Hd).
-  destruct (mount_depends idx _ vid s1 v (init_state d' off' mv' md' mf' []) F0
-              (PrGlobalMount.fresh_init d' off' mv' md' mf') Hmax E Ev) as (s' & v' & Es & Evs & G & R & Eds).
-  - cbn [s_disk init_state]. rewrite B0, Ed. reflexivity.
-  - cbn [s_disk init_state]. rewrite Bl, Ed. reflexivity.
-  - cbn [s_disk init_state]. intros E32. unfold info_sig in Hsig. rewrite E32 in Hsig. exact (proj2 Hsig).
-  - exists s', v'. cbn [s_next_id init_state] in Es. split; [exact Es|]. split; [exact Evs|].
-    split; [exact Eds|]. split; [exact R|]. split.
-    + destruct G as (a & c & ->). exact Hsig.
-    + exact (PrGlobalMount.crash_inv_relabel fsz v v' d' R Hc).
+  exact (C10_crashed_medium_mounts_gen depth fsz idx 0 _ vid s1 v ops1 o ops2 M Hage1 Hops d' Hd
+           (init_state d' off' mv' md' mf' []) (PrGlobalMount.fresh_init d' off' mv' md' mf') eq_refl Hmax).
 Qed.
 
 (* ... in particular the medium BETWEEN the calls and the medium after the whole history *)
@@ -401,3 +534,14 @@ Proof.
   - apply Forall_app. split; [exact Hops|]. constructor; [|constructor]. repeat split.
   - apply PrCrashDef.crash_disks_old.
 Qed.
+
+(* ================================================================== assumptions *)
+Print Assumptions sig_crash_run.
+Print Assumptions info_sig_crash_history.
+Print Assumptions parse_volume_transfer.
+Print Assumptions mount_depends.
+Print Assumptions mount_depends_iff.
+Print Assumptions mount_info_sig.
+Print Assumptions C10_crashed_medium_mounts_gen.
+Print Assumptions C10_crashed_medium_mounts.
+Print Assumptions C10_medium_between_calls_mounts.
